@@ -495,6 +495,12 @@ def extension_ops(prefix_ops, arenas, variant=0):
         if len(t) >= 4 and t[0] == "m" and t[1] in ("barbw", "barfw") and t[2] != "-":
             for sl in range(3):
                 ops.append("m rawstorew %s %d %s" % (t[2], sl, t[3]))
+        # an upgraded pointer "may be used and stored like any other Gc": store it, through the barriered store
+        # API, into the objects held by the root
+        if len(t) >= 4 and t[0] == "m" and t[1] == "upgrade":
+            spare = [r for r in range(6) if str(r) != t[2]][-1]
+            for i in range(4):
+                ops += ["m loadroot %d %d" % (spare, i), "m store %d 0 %s" % (spare, t[2]), "m store %d 1 %s" % (spare, t[2])]
         # a child-only forward barrier licenses adoption by ANY parent, a parent-only backward barrier adoption
         # of ANY child: try every register as the other side
         if len(t) >= 4 and t[0] == "m" and t[1] == "barf" and t[2] == "-":
@@ -624,8 +630,13 @@ def run_core(chk, pid, tier, seed, extra_cover_prefixes=()):
         vm.get("scripts", 0), vm.get("lines", 0)), vm.get("mismatches", 1) == 0 and vm.get("lines", 0) > 0, vm.get("detail", ""))
     mine_v = [v for v in res["violations"] if v["property"] == pid]
     if mine and not mine_v:
-        # the tie to the code is broken for this property: look for a concrete failing input
-        extra = search_failing_input(pid, mine)
+        # the tie to the code is broken for this property: look for a concrete failing input -- first among the
+        # scripts of this very run (a failure observed through the oracle of a related property, e.g. a stashed
+        # object destructed while reachable for C14), then by extending the diverging scripts
+        extra = [dict(v, property=pid, desc=v["desc"] + " [observed through the %s oracle]" % v["property"])
+                 for v in res["violations"] if v["property"] in RELATED.get(pid, ()) and v["property"] != pid and v.get("key") is None][:3]
+        if not extra:
+            extra = search_failing_input(pid, mine)
         chk.cov["failing_input_search"] = {"divergences_extended": min(len(mine), 8), "violations_found": len(extra)}
         res = dict(res)
         res["violations"] = list(res["violations"]) + extra
